@@ -99,12 +99,16 @@ def sampler_job(interp, c, case):
         itf = S.ns["ModelCSimInterface"](M)
         st = np.array([c.int("A", lo=0), c.int("B", lo=0)], dtype=object)
         c.draws.clear()
-        _report(c, itf.compute_delay(ptr(interp, st), 0) == pv["tau"], "fixed delay returns its parameter")
+        ok = _report(c, itf.compute_delay(ptr(interp, st), 0) == pv["tau"], "fixed delay returns its parameter (of either sign: a non-positive delay acts as none)")
+        if ok is False:
+            c.failures[-1]["replay"] = {"kind": "signed_delay"}
         _report(c, len(c.draws) == 0, "fixed delay draws no random numbers")
         g = itf.compute_delay(ptr(interp, st), 1)
         ok = len(c.draws) == 2
-        _report(c, ok and g == _box_muller(c.draws[0], c.draws[1], pv["mu"], pv["sd"]),
-                "gaussian delay is Normal(mean, std) by Box-Muller on the reaction's own parameters")
+        ok = _report(c, ok and g == _box_muller(c.draws[0], c.draws[1], pv["mu"], pv["sd"]),
+                     "gaussian delay is Normal(mean, std) by Box-Muller on the reaction's own parameters (a negative draw stays negative: it acts as zero delay)")
+        if ok is False:
+            c.failures[-1]["replay"] = {"kind": "signed_delay"}
         c.draws.clear()
         # gamma delay: exactly one draw of gamma_rv with the reaction's own shape and scale (gamma_rv itself: jobs gamma1/gamma2)
         Rm = interp.load("bioscrape.random")
